@@ -276,7 +276,7 @@ theorem scope_store {w : PWorld} {t : Oid} {m : Name} {s : PathSpec} (hs : Scope
 /-! ### `_update_deps` calls that do nothing -/
 
 theorem updateDeps_other {w : PWorld} {t : Oid} {m : Name} {s : PathSpec} (hs : Scope w t m s) {o : Oid} {c : PClass}
-    (ho : o ≠ t) (hc : classOf w o = some c) (a : Option Name) : updateDeps w o a false = .ok w := by
+    (ho : o ≠ t) (hc : classOf w o = some c) (a : Option Name) (init : Bool := false) : updateDeps w o a init = .ok w := by
   unfold updateDeps
   rw [hc]
   simp only [hs.others o c ho hc]
@@ -994,5 +994,189 @@ theorem step_deeper {w w' : PWorld} {t : Oid} {m : Name} {s : PathSpec} {o : Oid
           exact absurd hcond.1 this
         · rfl
       rw [e1, e2, ← e3, readsOf_congr c2]
+      rfl
+
+/-! ### construction -/
+
+theorem newObj_ok {w w' : PWorld} {cls : Nat} {vals : List (Name × Val)} (h : newObj w cls vals = .ok w') :
+    ∃ c, w.classes[cls]? = some c ∧
+      updateDeps { w with objs := w.objs ++ [⟨cls, vals⟩] } w.objs.length none true = .ok w' := by
+  unfold newObj at h
+  split at h
+  · simp at h
+  · rename_i c hc
+    split at h
+    · simp at h
+    · split at h
+      · simp at h
+      · exact ⟨c, hc, h⟩
+
+theorem getParam_append (w : PWorld) (ob : PObj) (o : Oid) (n : Name) (ho : o < w.objs.length) :
+    getParam { w with objs := w.objs ++ [ob] } o n = getParam w o n := by
+  simp [getParam, List.getElem?_append_left ho]
+
+theorem pathReads_lt (w : PWorld) : ∀ (path : List Name) (cur : Oid), cur < w.objs.length → (∀ n ∈ path, ObjName w n) →
+    ∀ r ∈ pathReads w cur path, r.1 < w.objs.length := by
+  intro path
+  induction path with
+  | nil => intro cur _ _ r hr; cases hr
+  | cons n rest ih =>
+    intro cur hc hall r hr
+    simp only [pathReads, List.mem_cons] at hr
+    rcases hr with rfl | hr
+    · exact hc
+    · cases hg : getParam w cur n with
+      | none => rw [hg] at hr; cases hr
+      | some v =>
+        cases v with
+        | none => rw [hg] at hr; cases hr
+        | int i => rw [hg] at hr; cases hr
+        | ref o =>
+          rw [hg] at hr
+          rcases hall n (by simp) cur _ hg with h | ⟨o', h, hlt⟩
+          · cases h
+          · cases h
+            exact ih o hlt (fun x hx => hall x (List.mem_cons_of_mem _ hx)) r hr
+
+/-- **constructing the owner establishes the invariant** (`_update_deps(init=True)`) -/
+theorem new_owner_installed {w w' : PWorld} {cls : Nat} {vals : List (Name × Val)} {t : Oid} {m : Name} {s : PathSpec}
+    (hnew : newObj w cls vals = .ok w') (ht : t = w.objs.length) (hw : w.watchers = [] ∧ w.dyn = [])
+    (hs' : Scope w' t m s) (hsim' : (chainObjsFrom w' t s.path).Nodup) : Installed w' t m s ∧ w'.log = w.log := by
+  obtain ⟨c, _, hud⟩ := newObj_ok hnew
+  have hg := updateDeps_graph hud
+  rw [← ht] at hud
+  obtain ⟨w2, r1, _, r3, r4⟩ := rebuild_gen { w with objs := w.objs ++ [⟨cls, vals⟩] } t m s none true
+    (hs'.congr hg.symm) (by rw [← chainObjsFrom_congr hg]; exact hsim') (by simp [hw.1]) (by simp [hw.2]) (Or.inl rfl)
+    (fun _ => ⟨hw.1, hw.2⟩)
+  rw [r1] at hud
+  have : w2 = w' := Except.ok.inj hud
+  subst this
+  exact ⟨r4, r3⟩
+
+/-- **constructing any other object changes nothing** -/
+theorem new_other_installed {w w' : PWorld} {cls : Nat} {vals : List (Name × Val)} {t : Oid} {m : Name} {s : PathSpec}
+    (hnew : newObj w cls vals = .ok w') (hs : Scope w t m s) (hi : Installed w t m s) (hs' : Scope w' t m s) :
+    Installed w' t m s ∧ w'.log = w.log ∧ chainObjsFrom w' t s.path = chainObjsFrom w t s.path := by
+  obtain ⟨c, hc, hud⟩ := newObj_ok hnew
+  have hg := updateDeps_graph hud
+  obtain ⟨ct, hct, _⟩ := hs.tcls
+  have htl : t < w.objs.length := classOf_lt hct
+  have hne : w.objs.length ≠ t := Nat.ne_of_gt htl
+  have hcls : classOf { w with objs := w.objs ++ [⟨cls, vals⟩] } w.objs.length = some c := by
+    simp [classOf, hc]
+  rw [updateDeps_other (hs'.congr hg.symm) hne hcls none true] at hud
+  have : { w with objs := w.objs ++ [⟨cls, vals⟩] } = w' := Except.ok.inj hud
+  subst this
+  have hag : AgreeOn w { w with objs := w.objs ++ [⟨cls, vals⟩] } (pathReads w t s.path) := by
+    intro r hr
+    exact getParam_append w _ r.1 r.2 (pathReads_lt w s.path t htl (fun n hn => (hs.names n hn).2.1) r hr)
+  obtain ⟨hb, hch⟩ := built_agree hs hag
+  exact ⟨⟨by rw [hb]; exact hi.shapes, hi.owned, hi.cbs, hi.dynKeys⟩, rfl, hch⟩
+
+/-- every installed watcher sits on an object of the current resolution chain -/
+theorem installed_on_chain {w : PWorld} {t : Oid} {m : Name} {s : PathSpec} (hs : Scope w t m s) (hi : Installed w t m s)
+    (hsim : (chainObjsFrom w t s.path).Nodup) : ∀ x ∈ w.watchers, x.on ∈ chainObjsFrom w t s.path ∧ x.owner = t ∧ x.method = m := by
+  intro x hx
+  obtain ⟨h1, _, _⟩ := watcher_dep hs hi hsim hx
+  refine ⟨?_, (hi.owned x hx).1, (hi.owned x hx).2.1⟩
+  rw [← builtFrom_on w s.path t 0 s.leaf]
+  exact List.mem_map.2 ⟨shapeOf x, h1, rfl⟩
+
+/-! ### decidable versions of the hypotheses (used by the non-vacuity examples) -/
+
+def hasNameB (w : PWorld) (n : Name) : Bool := (List.range w.objs.length).all (fun o => (getParam w o n).isSome)
+
+def objNameB (w : PWorld) (n : Name) : Bool :=
+  (List.range w.objs.length).all (fun o =>
+    match getParam w o n with
+    | some (.ref o') => decide (o' < w.objs.length)
+    | some (.int _) => false
+    | _ => true)
+
+def scopeB (w : PWorld) (t : Oid) (m : Name) (s : PathSpec) : Bool :=
+  (match classOf w t with
+   | some ct => decide (ct.methods = [⟨m, [s]⟩])
+   | none => false) &&
+  (List.range w.objs.length).all (fun o => o == t ||
+    match classOf w o with
+    | some c => c.methods.isEmpty
+    | none => true) &&
+  s.leaf != "param" && !s.path.isEmpty &&
+  s.path.all (fun n => hasNameB w n && objNameB w n && n != "param") && hasNameB w s.leaf
+
+def objOnlyB (w : PWorld) (s : PathSpec) : Bool := s.path.all (fun n => w.classes.all (fun c => !c.intParams.contains n))
+
+theorem getParam_none_of_ge (w : PWorld) (o : Oid) (n : Name) (h : w.objs.length ≤ o) : getParam w o n = none := by
+  simp [getParam, List.getElem?_eq_none h]
+
+theorem hasNameB_spec {w : PWorld} {n : Name} (h : hasNameB w n = true) : HasName w n := by
+  intro o ho
+  have := (List.all_eq_true.1 h) o (List.mem_range.2 ho)
+  exact Option.isSome_iff_exists.1 this
+
+theorem objNameB_spec {w : PWorld} {n : Name} (h : objNameB w n = true) : ObjName w n := by
+  intro o v hv
+  rcases Nat.lt_or_ge o w.objs.length with hlt | hge
+  · have := (List.all_eq_true.1 h) o (List.mem_range.2 hlt)
+    rw [hv] at this
+    cases v with
+    | none => exact Or.inl rfl
+    | int i => simp at this
+    | ref o' => exact Or.inr ⟨o', rfl, by simpa using this⟩
+  · rw [getParam_none_of_ge w o n hge] at hv; cases hv
+
+theorem scopeB_spec {w : PWorld} {t : Oid} {m : Name} {s : PathSpec} (h : scopeB w t m s = true) : Scope w t m s := by
+  unfold scopeB at h
+  simp only [Bool.and_eq_true] at h
+  obtain ⟨⟨⟨⟨⟨h1, h2⟩, h3⟩, h4⟩, h5⟩, h6⟩ := h
+  refine ⟨?_, ?_, by simpa using h3, by simpa using h4, ?_, hasNameB_spec h6⟩
+  · cases hc : classOf w t with
+    | none => rw [hc] at h1; simp at h1
+    | some ct => rw [hc] at h1; exact ⟨ct, rfl, by simpa using h1⟩
+  · intro o c ho hc
+    have hlt : o < w.objs.length := classOf_lt hc
+    have := (List.all_eq_true.1 h2) o (List.mem_range.2 hlt)
+    simp only [Bool.or_eq_true, beq_iff_eq, hc, List.isEmpty_iff] at this
+    rcases this with h | h
+    · exact absurd h ho
+    · exact h
+  · intro n hn
+    have := (List.all_eq_true.1 h5) n hn
+    simp only [Bool.and_eq_true, bne_iff_ne, ne_eq] at this
+    exact ⟨hasNameB_spec this.1.1, objNameB_spec this.1.2, this.2⟩
+
+theorem objOnlyB_spec {w : PWorld} {s : PathSpec} (h : objOnlyB w s = true) : ObjOnly w s := by
+  intro n hn c hc
+  have := (List.all_eq_true.1 ((List.all_eq_true.1 h) n hn)) c hc
+  simpa using this
+
+/-! ### the oracle's read set is the walk of the theorems -/
+
+/-- `readPairs` of the specification (PathsSpec.lean: what the oracle calls "touched") is `depsFrom`,
+the read set the theorems are stated with -/
+theorem readPairs_eq_depsFrom (w : PWorld) (leaf : Name) (hleaf : leaf ≠ "param") (hl : HasName w leaf) :
+    ∀ (path : List Name) (cur : Oid), cur < w.objs.length → (∀ n ∈ path, HasName w n ∧ ObjName w n) →
+    readPairs w cur ⟨path, leaf⟩ = depsFrom w cur path leaf := by
+  intro path
+  induction path with
+  | nil =>
+    intro cur hc _
+    obtain ⟨v, hv⟩ := hl cur hc
+    simp [readPairs, walk, leafReads, hleaf, hv, depsFrom]
+  | cons n rest ih =>
+    intro cur hc hall
+    obtain ⟨v, hv⟩ := (hall n (by simp)).1 cur hc
+    have hrest : ∀ x ∈ rest, HasName w x ∧ ObjName w x := fun x hx => hall x (List.mem_cons_of_mem _ hx)
+    cases v with
+    | none => simp [readPairs, walk, leafReads, hv, depsFrom]
+    | int i => simp [readPairs, walk, leafReads, hv, depsFrom]
+    | ref o =>
+      have ho : o < w.objs.length := by
+        rcases (hall n (by simp)).2 cur _ hv with h | ⟨o', h, hlt⟩
+        · cases h
+        · cases h; exact hlt
+      have := ih o ho hrest
+      simp only [readPairs, walk, leafReads, hv, depsFrom] at this ⊢
+      simp only [List.map_cons, List.cons_append, this]
 
 end ParamVerif.Depends
